@@ -48,6 +48,11 @@
 // ENV_DAEMON_FLAG (and no ENV_DAEMON_NAME - Run() keys on the name) in its environment. (p) the
 // caller is started as ./prog in its directory, sub/prog from the parent directory, by bare name
 // through PATH, through a symlink, or by absolute path with another cwd.
+// (n-*-sep) the same with names that contain separator characters. (q) the handler does an
+// ordinary thing to its own process right before Done(): unset/overwrite ENV_DAEMON_NAME / _FLAG,
+// os.Clearenv(), chdir("/"), close fds 0-2, setsid, umask - one call per action, all in one caller
+// (concurrent, forced, sequential); a launcher that keeps waiting although the daemon's done
+// record says Done() returned nil is found by the watchdog + at-rest proof (launch-never-returns).
 // A Launch that fails although no process ever ran its handler is decided, not left open: the
 // launcher is gone when Launch returns, so the handler can never run; the harness handlers always
 // reach Done() when run; unless the error is a resource refusal of the machine it is a
@@ -120,6 +125,10 @@ type Group struct {
 	// GateSignal (gate cases): while the gate is closed the supervisor sends this signal (TERM,
 	// HUP, USR1, USR2, QUIT, CONT, WINCH, URG) once to the launcher of every gated call.
 	GateSignal string `json:"gate_signal,omitempty"`
+	// Pre[i]: what handler i does to itself right before Done() - unset-name / unset-flag /
+	// unset-both (ENV_DAEMON_*), clearenv, overwrite (other values), chdir("/"), closefds (0,1,2),
+	// setsid, umask.
+	Pre []string `json:"pre_done_actions,omitempty"`
 }
 
 func (g Group) name(i int) string { return nameOf(g.Names, i) }
@@ -156,7 +165,7 @@ func (cs Case) shape() string {
 		if g.Stdio {
 			sb.WriteString(":stdio")
 		}
-		fmt.Fprintf(&sb, ":%s:n%d:%s:%s:sig%s", g.Names, g.Nest, g.StaleFlag, g.Start, g.GateSignal)
+		fmt.Fprintf(&sb, ":%s:n%d:%s:%s:sig%s:pre%v", g.Names, g.Nest, g.StaleFlag, g.Start, g.GateSignal, g.Pre)
 	}
 	return sb.String()
 }
@@ -261,6 +270,9 @@ func runCase(cs Case, c *drv.Ctx, root string) (vd verdict) {
 		}
 		if gr.g.Stdio {
 			cmd.Env = append(cmd.Env, envStdio+"=1")
+		}
+		if len(gr.g.Pre) > 0 {
+			cmd.Env = append(cmd.Env, envPre+"="+strings.Join(gr.g.Pre, ","))
 		}
 		if gr.g.Names != "" {
 			cmd.Env = append(cmd.Env, envNames+"="+gr.g.Names)
@@ -697,6 +709,9 @@ func describe(cs Case, gr *groupRun, i int) string {
 			linger += fmt.Sprintf("; its daemon launches handler %q in turn (nesting depth %d)", shortName(gr.g.name(i+1)), gr.g.Nest)
 		}
 	}
+	if i < len(gr.g.Pre) && gr.g.Pre[i] != "" {
+		linger += "; before Done() the handler does: " + gr.g.Pre[i]
+	}
 	if gr.g.GateSignal != "" {
 		linger += "; the supervisor sends SIG" + gr.g.GateSignal + " to the launcher while the handler waits at the gate"
 	}
@@ -744,7 +759,7 @@ func judgeHang(cs Case, gr *groupRun) verdict {
 		if lst, same := sameProcess(m.Launcher, m.LauncherStart); same && lst.alive() {
 			if rest, how := atRest(m.Launcher); rest {
 				return verdict{key: "launch-never-returns:launcher-at-rest-after-Done@" + schedOf(cs, gr), expected: exp,
-					observed: fmt.Sprintf("not returned %v after the call; launcher %d (parent %d) still alive and at rest: %s - it consumed the daemon's SIGINT and keeps waiting; caller %d state %s",
+					observed: fmt.Sprintf("not returned %v after the call; launcher %d (parent %d) still alive and at rest: %s - the daemon returned from Done() with err=nil, no SIGINT is pending for the launcher (it consumed it or never got one) and it keeps waiting; caller %d state %s",
 						launchWatchdog, m.Launcher, lst.Ppid, how, gr.pgid, readStat(gr.pgid).State)}
 			} else {
 				incon = append(incon, fmt.Sprintf("%s not returned after %v; launcher %d alive but not provably at rest: %s", describe(cs, gr, i), launchWatchdog, m.Launcher, how))
@@ -1175,7 +1190,7 @@ type mon struct{}
 func (mon) Name() string { return "daemonlaunch" }
 
 func (mon) Level(string) (string, string) {
-	return "exploration", "scenarios = caller processes calling daemon.Launch 1, 2 or 8 times concurrently; schedules: natural timing with the handler sleeping 0/5/200 ms before Done(); forced early Done() (launcher held by the verif pause hook right after cmd.Start() until every daemon of the caller returned from Done()); concurrent calls all natural, all forced, or one forced and one natural caller at the same time; all of these again with a launcher process that lingers 50/300 ms between daemon.Run() returning and os.Exit(0). histories of 6..12 calls in one caller process (sequential or in steps of 1-3 concurrent calls, GOMAXPROCS default or 1) in which handlers that fail before Done() (exit 3, exit 0, panic) are interleaved with healthy ones; daemons that, after Done(), write lines to stderr and stdout (also through package log, once at once and three times after the launcher is gone) and read stdin before their liveness is judged; handler names from the edges (empty, blank, 'a b', 'x=y', non-ASCII, 200 bytes, prefixes of each other, the ENV_DAEMON_FLAG values); nested launches (a daemon, after Done(), launches the next handler from inside, depth 2 and in thorough 3, judged by the same post-conditions); callers with a stale ENV_DAEMON_FLAG in their environment; callers started by relative path from their own or the parent directory, by bare name through PATH, through a symlink, or with another working directory; slow daemons: the handler waits before Done() at a gate that the supervisor keeps closed for 8 s (quick) or 8/20/45 s (thorough) - Launch must not have returned (no ret file of the caller) at the moment the supervisor decides to open the gate, the seconds being exposure only; in the same window further callers whose launcher receives one foreign signal (TERM, HUP, USR1, WINCH; thorough also USR2, QUIT, CONT, URG) while the gate is closed - Launch may fail or keep waiting but must not report success before the gate opens. Other timings of the three processes are sampled by repetition only. distinct_nontrivial = distinct (schedule class, forced flag and delay vector per caller) shapes"
+	return "exploration", "scenarios = caller processes calling daemon.Launch 1, 2 or 8 times concurrently; schedules: natural timing with the handler sleeping 0/5/200 ms before Done(); forced early Done() (launcher held by the verif pause hook right after cmd.Start() until every daemon of the caller returned from Done()); concurrent calls all natural, all forced, or one forced and one natural caller at the same time; all of these again with a launcher process that lingers 50/300 ms between daemon.Run() returning and os.Exit(0). histories of 6..12 calls in one caller process (sequential or in steps of 1-3 concurrent calls, GOMAXPROCS default or 1) in which handlers that fail before Done() (exit 3, exit 0, panic) are interleaved with healthy ones; daemons that, after Done(), write lines to stderr and stdout (also through package log, once at once and three times after the launcher is gone) and read stdin before their liveness is judged; handler names from the edges (empty, blank, 'a b', 'x=y', non-ASCII, 200 bytes, prefixes of each other, the ENV_DAEMON_FLAG values); nested launches (a daemon, after Done(), launches the next handler from inside, depth 2 and in thorough 3, judged by the same post-conditions); callers with a stale ENV_DAEMON_FLAG in their environment; callers started by relative path from their own or the parent directory, by bare name through PATH, through a symlink, or with another working directory; handler names containing separator characters (comma, semicolon, colon, bar, newline, tab, backslash, percent, leading dash); handlers that, right before Done(), unset or overwrite their ENV_DAEMON_* variables, clear the environment, chdir to /, close fds 0-2, setsid or change the umask; slow daemons: the handler waits before Done() at a gate that the supervisor keeps closed for 8 s (quick) or 8/20/45 s (thorough) - Launch must not have returned (no ret file of the caller) at the moment the supervisor decides to open the gate, the seconds being exposure only; in the same window further callers whose launcher receives one foreign signal (TERM, HUP, USR1, WINCH; thorough also USR2, QUIT, CONT, URG) while the gate is closed - Launch may fail or keep waiting but must not report success before the gate opens. Other timings of the three processes are sampled by repetition only. distinct_nontrivial = distinct (schedule class, forced flag and delay vector per caller) shapes"
 }
 
 func (mon) Assumptions(string) []string {
@@ -1212,6 +1227,12 @@ var classes = []string{
 	// handler names from the edges ("", " ", "a b", "x=y", non-ASCII, 200 bytes, prefixes of each
 	// other, the flag values, the variable's name): 12 calls, concurrent / sequential / forced
 	"n-conc", "n-seq", "n-forced",
+	// names with separator characters: "a,b", ",", "a;b", "a:b", "a|b", "a b,c d", newline, tab,
+	// backslash, '%', leading '-'
+	"n-conc-sep", "n-seq-sep",
+	// before Done() the handler cleans / changes its own process: unset or overwrite ENV_DAEMON_*,
+	// os.Clearenv(), chdir("/"), close fds 0-2, setsid, umask - one call per action
+	"q-pre-natural", "q-pre-forced", "q-pre-seq",
 	// nested: the daemon of handler 0 launches handler 1 from inside (nest3: and that one handler 2)
 	"t-nest2-natural", "t-nest2-forced", "t-nest3-natural", "t-nest3-forced",
 	// the caller has a stale ENV_DAEMON_FLAG (isDaemon / isLauncher / junk) in its environment
@@ -1232,7 +1253,7 @@ func runsFor(class, tier string) (runs, parts int) {
 		runs, parts = 300, 4
 	}
 	switch class[0] {
-	case 'n':
+	case 'n', 'q':
 		runs = 3
 	case 't':
 		if strings.Contains(class, "nest3") && tier != "thorough" {
@@ -1298,11 +1319,24 @@ func genCase(class, tier string, seed int64, part, run int) Case {
 		cs.Groups = []Group{{Forced: f[0] == "b", Delays: []int{d}}}
 	case "n":
 		g := Group{Names: "edge", Delays: make([]int, maxN), Forced: f[1] == "forced"}
+		if len(f) > 2 && f[2] == "sep" {
+			g.Names = "sep"
+		}
 		for i := range g.Delays {
 			g.Delays[i] = delayChoices[r.Intn(2)]
 		}
 		if f[1] == "seq" {
 			for range g.Delays {
+				g.Steps = append(g.Steps, 1)
+			}
+		}
+		cs.Groups = []Group{g}
+	case "q":
+		g := Group{Forced: f[2] == "forced", Pre: append([]string(nil), preActions...), Delays: make([]int, len(preActions))}
+		r.Shuffle(len(g.Pre), func(i, j int) { g.Pre[i], g.Pre[j] = g.Pre[j], g.Pre[i] })
+		for i := range g.Delays {
+			g.Delays[i] = delayChoices[r.Intn(2)]
+			if f[2] == "seq" {
 				g.Steps = append(g.Steps, 1)
 			}
 		}
@@ -1539,7 +1573,9 @@ func main() {
 		if dir := os.Getenv(envDir); dir != "" {
 			reg := false
 			for i := 0; i < maxN; i++ {
-				reg = reg || name == nameOf("", i) || name == nameOf("edge", i)
+				for _, t := range nameTables {
+					reg = reg || name == nameOf(t, i)
+				}
 			}
 			writeAtomic(dir, fmt.Sprintf("unrecognised.%d", os.Getpid()), Unrecognised{Pid: os.Getpid(), Name: name, Flag: os.Getenv("ENV_DAEMON_FLAG"), Registered: reg})
 		}
